@@ -57,6 +57,94 @@ def sentinel(n):
     return None, None
 
 
+def positions_by_cases(ck, F, en):
+    """(True/False/None, text): insertBetweenNearLeft / insertBetweenNearRight executed by cases"""
+    from engine.conc import Conc, Unknown, Table
+    import itertools
+    types = [e["value"] for e in en["enumerators"]]
+    helpers = {"NearLeft": F.fn(SP + "::insertBetweenNearLeft", flat=False), "NearRight": F.fn(SP + "::insertBetweenNearRight", flat=False)}
+
+    def reference(kind, lst, left, right):
+        if kind == "NearRight":
+            ll = max([i for i, t in enumerate(lst) if t in left] or [-1])
+            fr = min([i for i, t in enumerate(lst) if i > ll and t in right] or [len(lst)])
+            return fr
+        fr = min([i for i, t in enumerate(lst) if t in right] or [len(lst)])
+        ll = max([i for i, t in enumerate(lst) if i < fr and t in left] or [-1])
+        return ll + 1
+    sets = []
+    for f in F.fns.values():
+        if not strip_tmpl(f.name).startswith(SP + "::") or f.body is None:
+            continue
+        for c in f.calls():
+            for kind, h in helpers.items():
+                if c.get("fn") == h.id and len(c.get("args", [])) == 3:
+                    try:
+                        l_ = Conc(F).eval(c["args"][0], {"__fn__": f})
+                        r_ = Conc(F).eval(c["args"][1], {"__fn__": f})
+                    except Unknown:
+                        return None, "the class sets %s passes could not be read" % strip_tmpl(f.name).split("::")[-1]
+                    if not (isinstance(l_, Table) and isinstance(r_, Table) and l_.items is not None and r_.items is not None):
+                        return None, "the class sets %s passes are not constant sets" % strip_tmpl(f.name).split("::")[-1]
+                    sets.append((kind, strip_tmpl(f.name).split("::")[-1], list(l_.items), list(r_.items)))
+    if len(sets) < 4:
+        return None, "fewer than four callers of the position helpers found"
+    ename = {e["value"]: e["name"] for e in en["enumerators"]}
+    n = 0
+    skipped = {}
+    for kind, caller, left, right in sets:
+        h = helpers[kind]
+        for ln in range(0, 5):
+            if kind in skipped:
+                break
+            for lst in itertools.product(types, repeat=ln):
+                cur = [("h", t, i) for i, t in enumerate(lst)]
+                new = ("h", types[0], 99)
+
+                def strip_ptr(x):
+                    x = skip_copies(x)
+                    while isinstance(x, dict) and x.get("k") == "call" and (x.get("op") in ("->", "*") or strip_tmpl(x.get("callee") or "").split("::")[-1] in ("data", "get", "operator->", "operator*")):
+                        x = skip_copies(x.get("obj") if x.get("ck") == "member" else (x.get("args") or [None])[0])
+                    return x
+
+                def leaf(n_, env, cur=cur):
+                    if not isinstance(n_, dict) or n_.get("k") != "call":
+                        return None
+                    c_ = strip_tmpl(n_.get("callee") or "")
+                    if c_ == "QtLogger::Pipeline::handlers":
+                        return Table(items=list(cur))
+                    if c_.endswith("Handler::type"):
+                        it = cc.eval(strip_ptr(n_.get("obj")), env)
+                        if isinstance(it, tuple) and it and it[0] == "h":
+                            return it[1]
+                        raise Unknown("type() of %r" % (it,))
+                    if c_.split("::")[-1] == "insert" and n_.get("ck") == "member" and is_call(skip_copies(n_.get("obj")), "QtLogger::Pipeline::handlers") and len(n_.get("args", [])) == 2:
+                        i_ = cc.eval(n_["args"][0], env)
+                        x_ = cc.eval(n_["args"][1], env)
+                        if not isinstance(i_, int) or not (0 <= i_ <= len(cur)):
+                            raise Unknown("insert position %r" % (i_,))
+                        cur.insert(i_, x_)
+                        return 1
+                    return None
+                cc = Conc(F, leaf=leaf, max_steps=20000)
+                try:
+                    cc.call_fn(h, [Table(items=list(left)), Table(items=list(right)), new], {})
+                except Unknown as e:
+                    skipped[kind] = str(e)
+                    break
+                n += 1
+                pos = [i for i, x in enumerate(cur) if x == new]
+                want = reference(kind, list(lst), left, right)
+                if pos != [want]:
+                    return False, "insertBetween%s, called by %s() with left = {%s}, right = {%s}, puts the new handler at position %s of [%s]; the documented position (after the last left-class handler / before the first right-class handler) is %d: the list is no longer ordered by class" % (
+                        kind, caller, ", ".join(ename.get(t, str(t)) for t in left), ", ".join(ename.get(t, str(t)) for t in right), pos, ", ".join(ename.get(t, str(t)) for t in lst), want)
+    done = sorted(set(helpers) - set(skipped))
+    if not done:
+        return None, "the position helpers could not be executed by cases (%s)" % "; ".join("%s: %s" % kv for kv in sorted(skipped.items()))
+    ck.extra_done_helpers = done
+    return True, "insertBetween%s" % " / insertBetween".join(done) + " executed for every handler list of up to 4 elements over the %d classes and the class sets of the %d callers (%d runs): always the documented position" % (len(types), len(sets), n)
+
+
 def run(ck):
     F = ck.facts
     ck.rule("C17-O1", "every range algorithm in SortedPipeline gets (first, last) of one direction with last an end sentinel of the handler list; a begin() as last is an invalid range")
@@ -94,7 +182,14 @@ def run(ck):
                       "%s mixes a %s first with a %s end sentinel" % (c, fdir, ldir), key="%s|mixed-range" % strip_tmpl(f.name).split("::")[-1])
             else:
                 ck.ob("C17-O1", sitestr(f, n), None, "%s: `last` = %s is not a recognised sentinel" % (c, describe(last)))
-    ck.require(n_ranges >= 4, "fewer range-algorithm calls than confirmed by hand (%d < 4)" % n_ranges)
+    v_ = None
+    if n_ranges < 4:
+        # a position helper rewritten without the range algorithms (index loops): decide it by running it (engine/conc.py) on every handler list of up to
+        # four elements over the five classes, for the class sets each caller passes, against the documented position
+        v_, why_ = positions_by_cases(ck, F, en)
+        if v_ is not None:
+            ck.ob("C17-O1", sitestr(F.fn(SP + "::insertBetweenNearRight")), v_, why_, key="insertBetween|by-cases")
+    ck.require(n_ranges + 2 * len(getattr(ck, "extra_done_helpers", ())) >= 4, "fewer range-algorithm calls than confirmed by hand (%d < 4)" % n_ranges)
     # ---- O4 primitives
     prim_ok = {}
     prim_ok["insertBetweenNearLeft"] = primitive(ck, F.fn(SP + "::insertBetweenNearLeft"), left=True)
@@ -328,6 +423,9 @@ def primitive(ck, fn, left):
     nm = strip_tmpl(fn.name).split("::")[-1]
     finds = [n for n in fn.calls() if strip_tmpl(n.get("callee") or "") == "std::find_if"]
     ins = [n for n in fn.calls() if n.get("ck") == "member" and is_call(n, ("QList::insert", "QVector::insert", "std::vector::insert"))]
+    if (len(finds) != 2 or len(ins) != 1) and nm.replace("insertBetween", "") in getattr(ck, "extra_done_helpers", ()):
+        ck.ob("C17-O4", sitestr(fn), True, "%s: the position it chooses was decided by executing it by cases (C17-O1)" % nm, key="%s|contract" % nm)
+        return
     if len(finds) != 2 or len(ins) != 1:
         ck.ob("C17-O4", sitestr(fn), None, "%s: %d find_if / %d insert calls; contract idiom not recognised" % (nm, len(finds), len(ins)))
         return False
